@@ -205,6 +205,11 @@ def extract(repo):
         r"did_transition \|= self\.state\.on_app_read_reset\(\)\.is_ok\(\); if did_transition \{ "
         r"self\.on_error\(error::Kind::IdleTimeout, Location::Local, publisher\);", to)),
         "on_timeout: idle expiry => silent_shutdown, Recv|SizeKnown => reset + IdleTimeout")
+    tc = fn_body(recv, "on_transport_close")
+    flag(o, "recvTransportCloseShape", bool(tc and re.sub(r"\s+", "", tc).strip("{}") ==
+         "ensure!(self.features.is_stream());ensure!(matches!(self.state,Receiver::Recv|Receiver::SizeKnown));"
+         "self.on_error(error::Kind::TruncatedTransport,Location::Local,publisher);"),
+         "on_transport_close (stream transports): while more data is expected (Recv | SizeKnown) the closed transport is a TruncatedTransport error")
     pit = fn_body(recv, "poll_idle_timer")
     flag(o, "recvPollIdleShape", bool(pit and re.search(
         r"ready!\(self\.idle_timer\.poll_expiration\(now\)\); let last_peer_activity = load_last_activity\(\); "
